@@ -26,6 +26,13 @@ Section C05.
     cbn [map vmap2]. f_equal. exact IH.
   Qed.
 
+  Lemma blackjax_log_prob_rows z beta n0 :
+    blackjax_log_prob_value L Pi Q Tinv_pt Tinv_lj z beta n0 = map (smc_row beta) z.
+  Proof.
+    unfold blackjax_log_prob_value. cbv zeta. induction z as [|zi z IH]; [reflexivity|].
+    cbn [map vmap2]. f_equal. exact IH.
+  Qed.
+
   Lemma mcmc_log_prob_rows z n0 :
     mcmc_log_prob_value L Pi Tinv_pt Tinv_lj z n0 = map mcmc_row z.
   Proof.
